@@ -134,6 +134,13 @@ class YPCodeProgram:
         return generator.generate_program(self)
 
 
+class CutIfMarker(Predicate):
+    """Internal marker goal that commits the if-then-else with the given label.
+    It is only ever created by the compiler, never from source text."""
+    def __init__(self,label):
+        Predicate.__init__(self,Functor(Atom("$CUTIF"),[Atom(label)]))
+        self.label = label
+
 class YPPrologCompiler:
     def __init__(self,context):
         self.context = context
@@ -205,9 +212,9 @@ class YPPrologCompiler:
         if isinstance(body,ConjunctionPredicate):
             # if A is simple
             if isinstance(body.lhs,Predicate):
-                if body.lhs.functor.name.value == '$CUTIF':
+                if isinstance(body.lhs,CutIfMarker):
                     self._debug("------ case: $CUTIF, A")
-                    label = body.lhs.functor.args[0].value
+                    label = body.lhs.label
                     code_a = self.compile_body(body.rhs)
                     code_b = [ YPCodeBreakBlock(label) ]
                     return code_a + code_b
@@ -288,7 +295,7 @@ class YPPrologCompiler:
                         ConjunctionPredicate(
                             body.lhs.condition,
                             ConjunctionPredicate(
-                                Predicate(Functor(Atom("$CUTIF"),[Atom(cut_if_label)])),
+                                CutIfMarker(cut_if_label),
                                 body.lhs.action
                             )
                         ),
@@ -307,9 +314,9 @@ class YPPrologCompiler:
             return self.compile_body(ConjunctionPredicate(body, TruePredicate()))
         # :- functor(...)   A => A, true
         elif isinstance(body,Predicate):
-            if body.functor.name.value == '$CUTIF':
+            if isinstance(body,CutIfMarker):
                 self._debug("------ case: $CUTIF", body.functor.args)
-                return [ self.YPCodeBreakBlock(body.functor.args[0].value) ]
+                return [ YPCodeBreakBlock(body.label) ]
             else:
                 self._debug("------ case: [A  =>  A, true]  A => A, true")
                 return self.compile_body(ConjunctionPredicate(body, TruePredicate()))
